@@ -17,7 +17,8 @@ macro_rules! fail { ($o:expr, $($t:tt)*) => { return Err(Fail { prop: if $o.star
 #[derive(Clone, Debug, PartialEq)]
 pub enum St { Absent, File { size: usize, fill: u8, t: u64 }, Dir { names: Vec<&'static [u8]>, t: u64 } }
 
-fn content(size: usize, fill: u8) -> Vec<u8> { (0..size).map(|i| fill.wrapping_add((i % 251) as u8)).collect() }
+/// fill 0: `size` NUL bytes (states that differ only in how many NUL bytes end the file)
+fn content(size: usize, fill: u8) -> Vec<u8> { if fill == 0 { return vec![0u8; size]; } (0..size).map(|i| fill.wrapping_add((i % 251) as u8)).collect() }
 fn time(t: u64) -> SystemTime { SystemTime::UNIX_EPOCH + Duration::from_secs(1_600_000_000 + t * 1000) + Duration::from_nanos(t * 7) }
 
 fn clear(p: &Path) { if let Ok(m) = fs::symlink_metadata(p) { if m.is_dir() { let _ = fs::remove_dir_all(p); } else { let _ = fs::remove_file(p); } } }
@@ -32,7 +33,8 @@ fn materialize(p: &Path, s: &St) -> std::io::Result<()> {
 }
 pub fn states() -> Vec<St> {
   let mut v = vec![St::Absent];
-  for (size, fill, t) in [(0usize, 1u8, 1u64), (1, 1, 1), (1, 2, 1), (1, 1, 2), (5, 1, 3), (8191, 1, 3), (8192, 1, 3), (8192, 9, 3), (8193, 1, 2), (20000, 1, 5), (20000, 4, 5), (20000, 1, 4)] { v.push(St::File { size, fill, t }); }
+  for (size, fill, t) in [(0usize, 1u8, 1u64), (1, 1, 1), (1, 2, 1), (1, 1, 2), (5, 1, 3), (8191, 1, 3), (8192, 1, 3), (8192, 9, 3), (8193, 1, 2), (20000, 1, 5), (20000, 4, 5), (20000, 1, 4),
+    (1, 0, 1), (2, 0, 1), (3, 0, 2), (70000, 0, 3), (70001, 0, 3)] { v.push(St::File { size, fill, t }); }
   let dirs: Vec<(Vec<&'static [u8]>, u64)> = vec![(vec![], 1u64), (vec![b"a"], 1), (vec![b"a", b"b"], 1), (vec![b"ab"], 1), (vec![b"a", b"b"], 2), (vec![b"ba"], 2), (vec![b"b", b"a"], 3),
     // names that are not valid UTF-8 and differ only in such a byte
     (vec![b"gen_\xFF.o"], 4), (vec![b"gen_\xFE.o"], 4)];
